@@ -125,6 +125,9 @@ def run(ctx):
         if r.waveunit != c['u1']:
             ctx.violation(dict(sig, kind='result-unit'), {'expected': c['u1'], 'observed': r.waveunit}, case=None)
         num = len(r.wave) - 1
+        if num > 20000:               # (no case of this domain needs more than ~1000 points; keeps the model's input bounded)
+            ctx.violation(dict(sig, kind='grid-spacing'), {'points': num + 1, 'note': 'grid far finer than any operand or request'}, case=None)
+            continue
         if num < 1:
             ctx.violation(dict(sig, kind='degenerate-grid'), {'wave': r.wave.tolist()}, case=None)
             continue
@@ -133,8 +136,12 @@ def run(ctx):
         reals[cid] = (c, r, s1, s2, sig, wscale)
         # commutativity on the real objects (+ and x)
         if c['op'] in ('add', 'mul') and c['how'] in ('min', 'float'):
-            r2 = getattr(s2, OPS[c['op']])(s1, sampling=how_arg if c['u1'] == c['u2'] or how == 'min' else
-                                           0.5 * 10.0 ** (-9 - sp.EXP[c['u2']]), fill_value=float(c['fill']))
+            try:
+                r2 = getattr(s2, OPS[c['op']])(s1, sampling=how_arg if c['u1'] == c['u2'] or how == 'min' else
+                                               0.5 * 10.0 ** (-9 - sp.EXP[c['u2']]), fill_value=float(c['fill']))
+            except Exception as ex:
+                ctx.violation(dict(sig, kind=type(ex).__name__, order='swapped'), {'s1': s1j, 's2': s2j, 'error': repr(ex)[:200]}, case=None)
+                continue
             f = 10.0 ** (sp.EXP[c['u2']] - sp.EXP[c['u1']])         # r2 is expressed in u2
             if len(r2.wave) != len(r.wave) or not np.allclose(r2.wave * f, r.wave, rtol=1e-9, atol=0) or \
                     not np.allclose(r2.value, r.value, rtol=1e-9, atol=1e-12):
@@ -222,6 +229,38 @@ def run(ctx):
             ru = getattr(a_u, op)(b_u, method=method)
             if len(ru.wave) != len(ref.wave) or not np.allclose(ru.wave / 10.0, ref.wave, rtol=1e-12) or not np.allclose(ru.value, ref.value, rtol=1e-8, atol=1e-10):
                 ctx.violation({'kind': 'unit-dependent', 'method': method, 'op': op}, {'w1': [float(x) for x in w1], 'w2': [float(x) for x in w2]}, case=None)
+    # an operand given by a law instead of samples (Blackbody) is still defined on its own wavelength range only
+    nbb = 0
+    for _ in range(40):
+        lo = rng.choice((400, 450, 500))
+        nb = rng.randint(4, 9)
+        T = rng.choice((3000, 5000, 9000))
+        bb = lentil.radiometry.Blackbody(np.arange(lo, lo + nb, dtype=float), T, waveunit='nm', valueunit='photlam')
+        ext = (rng.randint(1, 5), rng.randint(1, 5))
+        ow = np.arange(lo - ext[0], lo + nb - 1 + ext[1] + 1, dtype=float)
+        other = lentil.radiometry.Spectrum(ow, np.full(ow.shape, 2.0), waveunit='nm', valueunit='photlam')
+        fill = rng.choice((0.0, 1.5))
+        for op, fn in (('multiply', np.multiply), ('add', np.add)):
+            for left_bb in (True, False):
+                nbb += 1
+                ctx.case(('blackbody', lo, nb, T, ext, fill, op, left_bb))
+                try:
+                    r = getattr(bb, op)(other, fill_value=fill) if left_bb else getattr(other, op)(bb, fill_value=fill)
+                except Exception as ex:
+                    ctx.violation({'kind': 'blackbody-operand-' + type(ex).__name__, 'op': op}, {'error': repr(ex)[:200]}, case=None)
+                    continue
+                inside = (r.wave >= lo) & (r.wave <= lo + nb - 1)
+                law = lentil.radiometry.planck_radiance(r.wave, T, waveunit='nm', valueunit='photlam') if hasattr(lentil.radiometry, 'planck_radiance') else None
+                e_out = fn(fill, 2.0)
+                e_in = fn(np.interp(r.wave, bb.wave, bb.value), 2.0)
+                ok_out = np.allclose(r.value[~inside], e_out, rtol=1e-12, atol=0)
+                # inside its range the law itself or its piecewise-linear samples are both faithful readings of the operand
+                ok_in = np.allclose(r.value[inside], e_in[inside], rtol=1e-3, atol=0)
+                if not (ok_out and ok_in):
+                    ctx.violation({'kind': 'blackbody-operand', 'op': op, 'where': 'outside-its-range' if not ok_out else 'inside'},
+                                  {'range_nm': [lo, lo + nb - 1], 'other_range_nm': [float(ow[0]), float(ow[-1])], 'fill': fill, 'T': T,
+                                   'observed_outside': r.value[~inside][:6], 'expected_outside': float(e_out)}, case=None)
+    ctx.extra['blackbody_operand_cases'] = nbb
     ctx.extra['relational_cases_for_spline_interpolation'] = nrel
     ctx.traces += len(cases)
     ctx.skipped['exact float ties at operand range ends'] = nties
